@@ -47,31 +47,39 @@ theorem tfun_bounded {a b : Ty} {k : Nat} (ha : a.Bounded k) (hb : b.Bounded k) 
   · exact ha j hj
   · exact hb j hj
 
-theorem noInternal_bounded {T : Ty} (h : T.noInternal) (k : Nat) : T.Bounded k := Ty.NoInt.bounded h k
-
 set_option maxHeartbeats 400000 in
-theorem infer_spec (ctx : Ctx) (hctx : ctx.NoInternal) (fuel : Nat) :
+theorem infer_spec (ctx : Ctx) (fuel : Nat) :
     ∀ (t : Skel) (bd : List Ty) (st : St) (t' : Skel) (T : Ty) (st' : St),
       infer ctx fuel t bd st = .ok (t', T, st') → Inv st → CB st → (∀ B ∈ bd, B.Bounded st.uf.length) →
-      t.AnnotNoInternal → InferPost ctx t bd st t' T st' := by
+      InferPost ctx t bd st t' T st' := by
   intro t
   induction t with
   | svar n T0 =>
-    intro bd st t' T st' h inv cb hbd hann
+    intro bd st t' T st' h inv cb hbd
     cases T0 with
     | some A =>
-      simp only [infer, Except.ok.injEq, Prod.mk.injEq] at h
-      obtain ⟨rfl, rfl, rfl⟩ := h
-      exact ⟨inv, cb, Ext.refl _, noInternal_bounded (hann A rfl) _, ⟨A, rfl, noInternal_bounded (hann A rfl) _⟩,
-        .svarAnn n A, fun τ _ => by simp [Skel.substI, checkedGetType]⟩
+      simp only [infer] at h
+      cases hr : A.hasReserved with
+      | true => simp [hr] at h
+      | false =>
+        simp only [hr, Bool.false_eq_true, if_false, Except.ok.injEq, Prod.mk.injEq] at h
+        obtain ⟨rfl, rfl, rfl⟩ := h
+        have hA := noInt_of_not_reserved A hr
+        exact ⟨inv, cb, Ext.refl _, hA.bounded _, ⟨A, rfl, hA.bounded _⟩,
+          .svarAnn n A hA, fun τ _ => by simp [Skel.substI, checkedGetType]⟩
     | none =>
       simp only [infer] at h
       cases hd : ctx.svars.lookup n with
       | some D =>
-        simp only [hd, Except.ok.injEq, Prod.mk.injEq] at h
-        obtain ⟨rfl, rfl, rfl⟩ := h
-        have hD := noInternal_bounded (hctx.2 n D hd) st.uf.length
-        exact ⟨inv, cb, Ext.refl _, hD, ⟨D, rfl, hD⟩, .svarDecl n D hd, fun τ _ => by simp [Skel.substI, checkedGetType]⟩
+        simp only [hd] at h
+        cases hr : D.hasReserved with
+        | true => simp [hr] at h
+        | false =>
+          simp only [hr, Bool.false_eq_true, if_false, Except.ok.injEq, Prod.mk.injEq] at h
+          obtain ⟨rfl, rfl, rfl⟩ := h
+          have hDn := noInt_of_not_reserved D hr
+          have hD := hDn.bounded st.uf.length
+          exact ⟨inv, cb, Ext.refl _, hD, ⟨D, rfl, hD⟩, .svarDecl n D hd hDn, fun τ _ => by simp [Skel.substI, checkedGetType]⟩
       | none =>
         simp only [hd] at h
         cases hi : st.isctx.lookup n with
@@ -95,21 +103,31 @@ theorem infer_spec (ctx : Ctx) (hctx : ctx.NoInternal) (fuel : Nat) :
           · exact .svarInc n _ hd lookup_cons_self
           · intro τ _; simp [Skel.substI, checkedGetType]
   | var n T0 =>
-    intro bd st t' T st' h inv cb hbd hann
+    intro bd st t' T st' h inv cb hbd
     cases T0 with
     | some A =>
-      simp only [infer, Except.ok.injEq, Prod.mk.injEq] at h
-      obtain ⟨rfl, rfl, rfl⟩ := h
-      exact ⟨inv, cb, Ext.refl _, noInternal_bounded (hann A rfl) _, ⟨A, rfl, noInternal_bounded (hann A rfl) _⟩,
-        .varAnn n A, fun τ _ => by simp [Skel.substI, checkedGetType]⟩
+      simp only [infer] at h
+      cases hr : A.hasReserved with
+      | true => simp [hr] at h
+      | false =>
+        simp only [hr, Bool.false_eq_true, if_false, Except.ok.injEq, Prod.mk.injEq] at h
+        obtain ⟨rfl, rfl, rfl⟩ := h
+        have hA := noInt_of_not_reserved A hr
+        exact ⟨inv, cb, Ext.refl _, hA.bounded _, ⟨A, rfl, hA.bounded _⟩,
+          .varAnn n A hA, fun τ _ => by simp [Skel.substI, checkedGetType]⟩
     | none =>
       simp only [infer] at h
       cases hd : ctx.vars.lookup n with
       | some D =>
-        simp only [hd, Except.ok.injEq, Prod.mk.injEq] at h
-        obtain ⟨rfl, rfl, rfl⟩ := h
-        have hD := noInternal_bounded (hctx.1 n D hd) st.uf.length
-        exact ⟨inv, cb, Ext.refl _, hD, ⟨D, rfl, hD⟩, .varDecl n D hd, fun τ _ => by simp [Skel.substI, checkedGetType]⟩
+        simp only [hd] at h
+        cases hr : D.hasReserved with
+        | true => simp [hr] at h
+        | false =>
+          simp only [hr, Bool.false_eq_true, if_false, Except.ok.injEq, Prod.mk.injEq] at h
+          obtain ⟨rfl, rfl, rfl⟩ := h
+          have hDn := noInt_of_not_reserved D hr
+          have hD := hDn.bounded st.uf.length
+          exact ⟨inv, cb, Ext.refl _, hD, ⟨D, rfl, hD⟩, .varDecl n D hd hDn, fun τ _ => by simp [Skel.substI, checkedGetType]⟩
       | none =>
         simp only [hd] at h
         cases hi : st.ictx.lookup n with
@@ -133,17 +151,36 @@ theorem infer_spec (ctx : Ctx) (hctx : ctx.NoInternal) (fuel : Nat) :
           · exact .varInc n _ hd lookup_cons_self
           · intro τ _; simp [Skel.substI, checkedGetType]
   | const n T0 =>
-    intro bd st t' T st' h inv cb hbd hann
+    intro bd st t' T st' h inv cb hbd
     cases T0 with
     | some A =>
-      simp only [infer, Except.ok.injEq, Prod.mk.injEq] at h
-      obtain ⟨rfl, rfl, rfl⟩ := h
-      exact ⟨inv, cb, Ext.refl _, noInternal_bounded (hann A rfl) _, ⟨A, rfl, noInternal_bounded (hann A rfl) _⟩,
-        .constAnn n A, fun τ _ => by simp [Skel.substI, checkedGetType]⟩
+      simp only [infer] at h
+      cases hr : A.hasReserved with
+      | true => simp [hr] at h
+      | false =>
+        simp only [hr, Bool.false_eq_true, if_false, Except.ok.injEq, Prod.mk.injEq] at h
+        obtain ⟨rfl, rfl, rfl⟩ := h
+        have hA := noInt_of_not_reserved A hr
+        exact ⟨inv, cb, Ext.refl _, hA.bounded _, ⟨A, rfl, hA.bounded _⟩,
+          .constAnn n A hA, fun τ _ => by simp [Skel.substI, checkedGetType]⟩
     | none =>
       simp only [infer] at h
       cases hs : ctx.sig.lookup n with
-      | none => simp [hs] at h
+      | none =>
+        simp only [hs] at h
+        cases hdf : ctx.defs.lookup n with
+        | none => simp [hdf] at h
+        | some D =>
+          simp only [hdf] at h
+          cases hr : D.hasReserved with
+          | true => simp [hr] at h
+          | false =>
+            simp only [hr, Bool.false_eq_true, if_false, Except.ok.injEq, Prod.mk.injEq] at h
+            obtain ⟨rfl, rfl, rfl⟩ := h
+            have hDn := noInt_of_not_reserved D hr
+            obtain ⟨i2, c2, e2, -, -, b2⟩ := allocFor_spec (dedupStr D.ustvars) st inv cb
+            have hT := instS_bounded b2 D hDn
+            exact ⟨i2, c2, e2, hT, ⟨_, rfl, hT⟩, .constDef n D _ hdf hDn, fun τ _ => by simp [Skel.substI, checkedGetType]⟩
       | some S =>
         simp only [hs] at h
         cases hst : S.hasStvar with
@@ -155,7 +192,7 @@ theorem infer_spec (ctx : Ctx) (hctx : ctx.NoInternal) (fuel : Nat) :
           have hT := inst_bounded b2 S hst
           exact ⟨i2, c2, e2, hT, ⟨_, rfl, hT⟩, .constSig n S _ hs hst, fun τ _ => by simp [Skel.substI, checkedGetType]⟩
   | comb f a ihf iha =>
-    intro bd st t' T st' h inv cb hbd hann
+    intro bd st t' T st' h inv cb hbd
     simp only [infer, bind, Except.bind] at h
     cases hf : infer ctx fuel f bd st with
     | error e => simp [hf] at h
@@ -167,9 +204,9 @@ theorem infer_spec (ctx : Ctx) (hctx : ctx.NoInternal) (fuel : Nat) :
       | ok r2 =>
         obtain ⟨a', argT, st2⟩ := r2
         simp only [ha] at h
-        have pf := ihf bd st f' funT st1 hf inv cb hbd hann.1
+        have pf := ihf bd st f' funT st1 hf inv cb hbd
         have hbd1 : ∀ B ∈ bd, B.Bounded st1.uf.length := fun B hB => (hbd B hB).mono pf.ext.len
-        have pa := iha bd st1 a' argT st2 ha pf.inv pf.cb hbd1 hann.2
+        have pa := iha bd st1 a' argT st2 ha pf.inv pf.cb hbd1
         have hfun2 : funT.Bounded st2.uf.length := pf.tb.mono pa.ext.len
         split at h
         · -- funT = fun (d :: rest)
@@ -230,24 +267,30 @@ theorem infer_spec (ctx : Ctx) (hctx : ctx.NoInternal) (fuel : Nat) :
               simp only [Skel.substI, checkedGetType, t1, t2, if_true]
         · simp at h
   | abs x T0 b ih =>
-    intro bd st t' T st' h inv cb hbd hann
+    intro bd st t' T st' h inv cb hbd
     cases T0 with
     | some A =>
       simp only [infer] at h
-      cases hb : infer ctx fuel b (A :: bd) st with
-      | error e => simp [hb] at h
-      | ok r =>
-        obtain ⟨b', bodyT, st2⟩ := r
-        simp only [hb, Except.ok.injEq, Prod.mk.injEq] at h
-        obtain ⟨rfl, rfl, rfl⟩ := h
-        have hA := noInternal_bounded (hann.1 A rfl)
-        have pb := ih (A :: bd) st b' bodyT st2 hb inv cb
-          (by intro B hB; cases hB with | head => exact hA _ | tail _ hB => exact hbd B hB) hann.2
-        refine ⟨pb.inv, pb.cb, pb.ext, tfun_bounded (hA _) pb.tb, ⟨⟨A, rfl, hA _⟩, pb.sb⟩, .absAnn x A pb.pre, ?_⟩
-        intro τ hτ
-        have := pb.typ τ hτ
-        simp only [List.map_cons] at this
-        simp [Skel.substI, checkedGetType, this]
+      cases hr : A.hasReserved with
+      | true => simp [hr] at h
+      | false =>
+        simp only [hr, Bool.false_eq_true, if_false] at h
+        cases hb : infer ctx fuel b (A :: bd) st with
+        | error e => simp [hb] at h
+        | ok r =>
+          obtain ⟨b', bodyT, st2⟩ := r
+          simp only [hb, Except.ok.injEq, Prod.mk.injEq] at h
+          obtain ⟨rfl, rfl, rfl⟩ := h
+          have hAn := noInt_of_not_reserved A hr
+          have hA := fun k => hAn.bounded k
+          have pb := ih (A :: bd) st b' bodyT st2 hb inv cb
+            (by intro B hB; cases hB with | head => exact hA _ | tail _ hB => exact hbd B hB)
+          refine ⟨pb.inv, pb.cb, pb.ext, tfun_bounded ((hA _).mono pb.ext.len) pb.tb,
+            ⟨⟨A, rfl, hA _⟩, pb.sb⟩, .absAnn x A hAn pb.pre, ?_⟩
+          intro τ hτ
+          have := pb.typ τ hτ
+          simp only [List.map_cons] at this
+          simp [Skel.substI, checkedGetType, this]
     | none =>
       simp only [infer] at h
       cases hb : infer ctx fuel b ((newType st).1 :: bd) (newType st).2 with
@@ -265,7 +308,7 @@ theorem infer_spec (ctx : Ctx) (hctx : ctx.NoInternal) (fuel : Nat) :
         have pb := ih ((newType st).1 :: bd) (newType st).2 b' bodyT st2 hb i1 c1
           (by intro B hB; cases hB with
             | head => exact hT
-            | tail _ hB => exact (hbd B hB).mono (by rw [hl1]; exact Nat.le_succ _)) hann.2
+            | tail _ hB => exact (hbd B hB).mono (by rw [hl1]; exact Nat.le_succ _))
         refine ⟨pb.inv, pb.cb, e1.trans pb.ext, tfun_bounded (hT.mono pb.ext.len) pb.tb,
           ⟨⟨_, rfl, hT.mono pb.ext.len⟩, pb.sb⟩, .absNew x _ pb.pre, ?_⟩
         intro τ hτ
@@ -273,7 +316,7 @@ theorem infer_spec (ctx : Ctx) (hctx : ctx.NoInternal) (fuel : Nat) :
         simp only [List.map_cons] at this
         simp [Skel.substI, checkedGetType, this]
   | bound i =>
-    intro bd st t' T st' h inv cb hbd hann
+    intro bd st t' T st' h inv cb hbd
     simp only [infer] at h
     cases hb : bd[i]? with
     | none => simp [hb] at h
